@@ -210,3 +210,130 @@ Proof.
   - rewrite E, (GL_rev_domerr p e enum W S E), (GL_fwd_domerr p e v W S E). cbn [bind].
     split; reflexivity.
 Qed.
+
+(** ** Sanity / non-vacuity *)
+
+(* constant folding really fires on a variable-free sum, and yields its value *)
+Example GL_consolidate_example :
+  exists v, consolidate RInst (Add [Const 1; Const 2]) = Some (Const v) /\ v = 3 /\
+            refines (Add [Const 1; Const 2]) (Const v).
+Proof.
+  assert (E : consolidate RInst (Add [Const 1; Const 2]) = Some (Const (1 + (2 + 0)))).
+  { unfold consolidate. cbn. reflexivity. }
+  exists (1 + (2 + 0)). split; [exact E|]. split; [lra|].
+  apply consolidate_sound. exact E.
+Qed.
+
+(* a variable-free expression outside its domain is NOT folded (premise of 2 is not vacuous
+   the other way round) *)
+Example GL_consolidate_domerr :
+  consolidate RInst (Recip (Const 0)) = None.
+Proof.
+  unfold consolidate. cbn. unfold verify_reciprocal. cbn.
+  replace (Reqb 0 0) with true by (symmetry; apply Reqb_true; reflexivity).
+  reflexivity.
+Qed.
+
+Lemma GL_fr_some fuel (e e' : expr R) lab :
+  step_named RInst e = Some (lab, e') ->
+  fully_reduce RInst (S fuel) e = fully_reduce RInst fuel e' /\
+  reduce_trace RInst (S fuel) e = lab :: reduce_trace RInst fuel e'.
+Proof. intro H. cbn [fully_reduce reduce_trace]. unfold step. rewrite H. split; reflexivity. Qed.
+
+Lemma GL_fr_none fuel (e : expr R) :
+  step_named RInst e = None ->
+  fully_reduce RInst fuel e = e /\ reduce_trace RInst fuel e = [].
+Proof.
+  intro H. destruct fuel as [|f]; cbn [fully_reduce reduce_trace]; unfold step; rewrite ?H;
+    split; reflexivity.
+Qed.
+
+Local Notation x1 := (Var 1%positive).
+
+(* d/dx1 sin x1 is synthesised as cos x1 * 1; one rule application removes the 1 *)
+Lemma GL_ex_step1 :
+  step_named RInst (Mul [Cos x1; Const 1]) =
+  Some (LRule "_reduce_product_by_eliminating_ones" (Mul [Cos x1; Const 1]), Mul [Cos x1]).
+Proof.
+  cbn. unfold rules_at. cbn.
+  replace (Reqb 1 0) with false by (symmetry; apply Reqb_false; lra).
+  replace (Reqb 1 1) with true by (symmetry; apply Reqb_true; reflexivity).
+  reflexivity.
+Qed.
+
+Lemma GL_ex_step2 : step_named RInst (Mul [Cos x1] : expr R) = None.
+Proof. reflexivity. Qed.
+
+Lemma GL_ex_step3 : step_named RInst (Cos x1 : expr R) = None.
+Proof. reflexivity. Qed.
+
+Example GL_step_instance : refines (Mul [Cos x1; Const 1]) (Mul [Cos x1]).
+Proof. apply (step_sound_closed _ _ _ GL_ex_step1). reflexivity. Qed.
+
+(* the premises of C05_as_expression_sound / C07_early / C06_early are satisfiable, with a
+   normalisation that takes a genuine rule step and a genuine normal-form rewrite
+   (Mul [cos x1] becomes cos x1) *)
+Example GL_as_expression_nonvacuous :
+  let e : expr R := Sin x1 in
+  let p : point R := [(1%positive, 0)] in
+  wfR e /\ supplies p e /\
+  partial_as_expression RInst 3 3 e 1%positive = Some (Cos x1) /\
+  good_trace (normalize_trace RInst 3 3 (synth_fwd RInst 1%positive e)) = true.
+Proof.
+  cbv zeta. split; [exact I|]. split.
+  { intros y [<-|[]]. cbn. discriminate. }
+  unfold partial_as_expression, normalize, normalize_trace.
+  change (synth_fwd RInst 1%positive (Sin x1)) with (Mul [Cos x1; Const 1] : expr R).
+  destruct (GL_fr_some 2 _ _ _ GL_ex_step1) as [F1 T1].
+  destruct (GL_fr_none 2 _ GL_ex_step2) as [F2 T2].
+  destruct (GL_fr_none 3 _ GL_ex_step3) as [F3 T3].
+  rewrite F1, T1, F2, T2.
+  cbn [nfr nfr_trace partition_by is_Recip filter negb omapM flat_map app].
+  rewrite F3, T3. cbn. split; reflexivity.
+Qed.
+
+(* ... so the three theorems say something about that object *)
+Example GL_early_instance :
+  let e : expr R := Sin x1 in
+  let p : point R := [(1%positive, 0)] in
+  at_via RInst e (Cos x1) p = partial_at_late RInst e 1%positive p /\
+  same_kind (at_via RInst e (Cos x1) p) (evalR p e) /\
+  true_partial (env_of p) e 1%positive (denote (env_of p) (Cos x1)).
+Proof.
+  cbv zeta. destruct GL_as_expression_nonvacuous as (W & S & Hp & Hgt).
+  split; [|split].
+  - exact (early_agrees 3%nat 3%nat _ _ _ _ W S Hp Hgt).
+  - exact (early_same_kind 3%nat 3%nat _ _ _ _ W S Hp Hgt).
+  - apply (as_expression_sound 3%nat 3%nat (env_of [(1%positive, 0)]) _ _ _ W I Hp Hgt).
+Qed.
+
+(* C06_located on the tree of ReverseSound.v (repeated variable, product, quotient) *)
+Example GL_located_instance (v : name) :
+  component_of RInst (located_differential RInst RV_ex_e [2%positive; 1%positive] RV_ex_p) v =
+  partial_at_late RInst RV_ex_e v RV_ex_p.
+Proof.
+  destruct rev_premises_satisfiable as (W & S & _ & C).
+  exact (proj1 (located_agrees RV_ex_p RV_ex_e _ v W S C)).
+Qed.
+
+(** ** Final types and assumptions *)
+Check (rules_sound : C08_rules_sound).
+Check (consolidate_sound : C08_consolidate_sound).
+Check (step_sound_closed : C08_step_sound).
+Check (fully_reduce_sound_closed : C08_fully_reduce_sound).
+Check (nfr_sound_closed : C08_nfr_sound).
+Check (normalize_sound_closed : C08_normalize_sound).
+Check (as_expression_sound : C05_as_expression_sound).
+Check (early_same_kind : C07_early).
+Check (early_agrees : C06_early).
+Check (located_agrees : C06_located).
+Print Assumptions rules_sound.
+Print Assumptions consolidate_sound.
+Print Assumptions step_sound_closed.
+Print Assumptions fully_reduce_sound_closed.
+Print Assumptions nfr_sound_closed.
+Print Assumptions normalize_sound_closed.
+Print Assumptions as_expression_sound.
+Print Assumptions early_same_kind.
+Print Assumptions early_agrees.
+Print Assumptions located_agrees.
